@@ -28,7 +28,7 @@ import (
 
 func TestMain(m *testing.M) {
 	stats.Init("C06")
-	stats.Rule("(A) rapid state machine on SUB (1-3 contexts, queue 4) with 1-2 vt publisher pipes; topics/bodies over {00,'a','b',ff}^0..4; actions subscribe/unsubscribe(present|absent)/publish/recv/openCtx/closeCtx. (B) 1-2 real PUB x 1-4 SUB x 1-2 contexts over inproc/tcp, <=100 publications. Also: a Recv already waiting while a subscription is added/removed; (C) one stalled subscriber next to healthy ones; (D) WRITEQ-LEN 0/1 with publications one at a time to idle subscribers. Non-trivial: two topics in prefix relation, an empty topic, an unsubscribe with matching messages queued, or >=2 contexts with different subscriptions; distinct by action/outcome sequence resp. topology+subscriptions")
+	stats.Rule("(A) rapid state machine on SUB (1-3 contexts, queue 4) with 1-2 vt publisher pipes; topics/bodies over {00,'a','b',ff}^0..4; actions subscribe/unsubscribe(present|absent)/publish/recv/openCtx/closeCtx. (B) 1-2 real PUB x 1-4 SUB x 1-2 contexts over inproc/tcp/ipc/ws/tls+tcp, <=100 publications. Also: a Recv already waiting while a subscription is added/removed; (C) one stalled subscriber next to healthy ones; (D) WRITEQ-LEN 0/1 with publications one at a time to idle subscribers. Non-trivial: two topics in prefix relation, an empty topic, an unsubscribe with matching messages queued, or >=2 contexts with different subscriptions; distinct by action/outcome sequence resp. topology+subscriptions")
 	stats.Assume("on queue overflow the statement allows any loss; the model then only requires order-preserving delivery of candidates (exact FIFO is required while no overflow happened)")
 	rc := m.Run()
 	stats.Flush()
@@ -426,7 +426,7 @@ func TestC06PubFanout(t *testing.T) {
 }
 
 func fanoutProp(t *rapid.T) {
-	tr := rapid.SampledFrom([]string{"inproc", "inproc", "tcp", "ipc"}).Draw(t, "transport")
+	tr := rapid.SampledFrom([]string{"inproc", "inproc", "tcp", "ipc", "ws", "tls+tcp"}).Draw(t, "transport")
 	npub := rapid.IntRange(1, 2).Draw(t, "npub")
 	nsub := rapid.IntRange(1, 4).Draw(t, "nsub")
 	rawPub := rapid.Bool().Draw(t, "rawPub")
